@@ -821,15 +821,28 @@ func init() {
 				s.Unknown("port/cleanDefaultPort", "-", "anchor not found")
 			} else {
 				nilStore := false
-				for _, b := range cdp.Blocks {
-					for _, ins := range b.Instrs {
-						if st, ok := ins.(*ssa.Store); ok && isNilConst(st.Val) {
-							if fa, ok := fieldAddrOf(st.Addr, "Url:port"); ok && fa.X == ssa.Value(cdp.Params[0]) {
-								nilStore = true
+				var storesNil func(f *ssa.Function, depth int) bool
+				storesNil = func(f *ssa.Function, depth int) bool {
+					for _, b := range f.Blocks {
+						for _, ins := range b.Instrs {
+							if st, ok := ins.(*ssa.Store); ok && isNilConst(st.Val) {
+								if fa, ok := fieldAddrOf(st.Addr, "Url:port"); ok && fa.X == ssa.Value(f.Params[0]) {
+									return true
+								}
+							}
+							// … or an unexported helper of the URL, called on the same URL, does
+							if call, ok := ins.(*ssa.Call); ok && depth < 1 {
+								if h := call.Common().StaticCallee(); h != nil && len(h.Blocks) > 0 && namedOf(recvType(h)) == "Url" && len(call.Common().Args) > 0 && call.Common().Args[0] == ssa.Value(f.Params[0]) {
+									if storesNil(h, depth+1) {
+										return true
+									}
+								}
 							}
 						}
 					}
+					return false
 				}
+				nilStore = storesNil(cdp, 0)
 				s.Check(nilStore, "port/cleanDefaultPort", c.P.Pos(cdp.Pos()), "stores nil into port", "never clears the port")
 			}
 			// other writers of port
